@@ -30,7 +30,7 @@ RULE = ('hist/xstart: a history is 2-5 creates, then 6-30 chunks of 1-3 ops [new
         'obj | drop,new | drop,new,write | drop,drop,new], then one more create, '
         'over 19 element types (12 type codes, 5 ctypes scalar types, '
         'c_ubyte*3, a module-level Structure) x {Value, RawValue, Array, '
-        'RawArray} x 6 lock variants, array length 0-64 or an initialiser '
+        'RawArray} x 6 lock variants, array length 0-64 (and 150/300/450/520, around one arena) or an initialiser '
         'list of 0-24 (full or partial) elements, on a fresh Heap per case; '
         'then a child round trip (child reads, child writes 1-6, parent '
         'reads, parent writes 1-6, child reads, join, parent reads) under fork '
@@ -83,7 +83,10 @@ _INIT_VALUE = st.one_of(
     st.none(),
     st.lists(_RAW, min_size=0, max_size=3).map(lambda l: ['v', l]))
 _INIT_ARRAY = st.one_of(
-    st.sampled_from([0, 1, 2, 3, 7, 8, 9, 16, 33, 64]).map(lambda n: ['n', n]),
+    # (a few arrays that fill most of / more than one 4 KiB arena, so that
+    # freed and live blocks of very different sizes share an arena)
+    st.sampled_from([0, 1, 2, 3, 7, 8, 9, 16, 33, 64, 150, 300, 450,
+                     520]).map(lambda n: ['n', n]),
     st.integers(0, 64).map(lambda n: ['n', n]),
     st.tuples(st.lists(_RAW, min_size=0, max_size=24), st.integers(0, 1)).map(
         lambda t: ['l', t[0], t[1]]))
@@ -131,8 +134,8 @@ def _rand_new(rnd):
     init_v = None if rnd.random() < 0.4 else \
         ['v', [_rand_raw(rnd) for _ in range(rnd.randrange(4))]]
     if rnd.random() < 0.5:
-        init_a = ['n', rnd.choice([0, 1, 2, 3, 7, 8, 9, 16, 33, 64,
-                                   rnd.randrange(65)])]
+        init_a = ['n', rnd.choice([0, 1, 2, 3, 7, 8, 9, 16, 33, 64, 150, 300,
+                                   450, 520, rnd.randrange(65)])]
     else:
         init_a = ['l', [_rand_raw(rnd) for _ in range(rnd.randrange(25))],
                   rnd.randrange(2)]
